@@ -131,9 +131,35 @@ def strip_comments(src):
     return re.sub(r"--.*", "", src)
 
 
+def import_closure(modules):
+    """Files of the project (Q1t.*, Driver.*) transitively imported by the given modules."""
+    seen, todo = {}, list(modules)
+    while todo:
+        m = todo.pop()
+        if m in seen or not (m.startswith("Q1t.") or m.startswith("Driver.")):
+            continue
+        path = os.path.join(LEAN, *m.split(".")) + ".lean"
+        if not os.path.exists(path):
+            continue
+        seen[m] = path
+        src = strip_comments(open(path, encoding="utf-8").read())
+        todo += re.findall(r"^\s*(?:public\s+)?import\s+(\S+)", src, flags=re.M)
+    return sorted(seen.values())
+
+
+def exe_roots(exes):
+    txt = open(os.path.join(LEAN, "lakefile.toml")).read()
+    roots = []
+    for e in exes:
+        m = re.search(r'name\s*=\s*"%s"\s*\n\s*root\s*=\s*"([^"]+)"' % re.escape(e), txt)
+        if m:
+            roots.append(m.group(1))
+    return roots
+
+
 def grep_forbidden(ctx, files=None):
     hits = []
-    for f in (files or lean_files()):
+    for f in (files if files is not None else lean_files()):
         code = strip_comments(open(f, encoding="utf-8").read())
         for i, line in enumerate(code.split("\n"), 1):
             if FORBIDDEN.search(line):
@@ -198,7 +224,7 @@ def prove(ctx, props_module, driver_exes=(), required=(), extra_targets=()):
         detail = "\n".join(errs[:12]) or out[-800:]
     ctx.oblige("lake build %s" % props_module, ok, detail)
     ctx.coverage["lake_build_s"] = round(time.time() - t, 1)
-    grep_forbidden(ctx)
+    grep_forbidden(ctx, import_closure([props_module] + exe_roots(driver_exes)))
     if ok:
         audit_axioms(ctx, props_module, required)
         if ctx.thorough:
